@@ -250,6 +250,77 @@ CLAIMS = {
                   "on real cleanup passes + orphan oracle on simulated edit histories",
         design="9/C07",
     ),
+    "C01": dict(
+        text="Lean theorems on the kernel model and on the model of the executor's skip decision. (1) Pending "
+             "propagation (mark_step_pending / mark_file_outdated / mark_consuming_steps_pending, all graphs): a marked "
+             "step ends PENDING unless RUNNING/CHECKING, none of its BUILT outputs stays BUILT, the propagation never "
+             "creates a SUCCEEDED step with an unusable input nor a BUILT file behind a non-SUCCEEDED step, stored hashes "
+             "are kept; hence from a sound database without busy steps, after the consumers of a changed file (or a step "
+             "whose environment changed) are marked, every node downstream along recorded edges, attached or detached, is "
+             "invalidated (propagation_complete, propagation_complete_step, rescanEnv_propagation_complete), end to end "
+             "for update_file_hashes({p: h}, EXTERNAL) on the regenerated _HASH_TRANSITIONS table "
+             "(external_update_complete_partial). (2) try_skip_job records SUCCEEDED without running only if both "
+             "recomputed digests equal the stored ones (skip_sound). (3) can_recycle holds only if the four declared lists "
+             "match, a partial recycle leaves the step PENDING without env_var rows, a creator that loses a product loses "
+             "its hash, and after every accepted define_step the non-dynamic env_var rows of the step are declared "
+             "variables (redefinition_declares_env, all three branches); a recycle with changed shell/overrides re-checks "
+             "the step; a SUCCEEDED step carries the current values of its tracked variables. The whole-build statement "
+             "is decided by the oracle: generated histories of three families (projgen histories with restarts and watch "
+             "rebuilds, trees of nested/sibling plans, single-property redefinitions) on the real director code, compared "
+             "with a build from scratch (attached graph with states, needs, env vars, globs, relations, content digests; "
+             "all output bytes).",
+        note=BASE_NOTE + "closed_unique / successful_build_closed (DESIGN T1/T2) are not proved. The case 'an output modified by "
+             "the user' of an EXTERNAL update is excluded from external_update_complete_partial (only the producer is marked: "
+             "known finding of C14). Stored step digests are derived data, compared only for SUCCEEDED steps of equal graphs; "
+             "a PENDING step that keeps its hash and a digest recorded while the creator re-ran are counted, not reported. "
+             "Found by this oracle and fixed: stale env_var rows after a partial recycle (7574d5c), env value 1->2->1 "
+             "(bd1d0f5), redefinition with only shell/env_overrides changed (2c5d2b4). Known: "
+             "reverted-optional-step-keeps-amended-relations, creator-that-lost-a-product-not-rerun "
+             "(+ stale-output-after-lost-product).",
+        technique="Lean 4 proof (invariant schema over the mark_step_pending recursion, frame lemmas through define_step, "
+                  "decision model of the skip check) + kernel correspondence + recorded-call correspondence of the real "
+                  "Executor + incremental-versus-scratch differential oracle on simulated builds",
+        design="9/C01",
+    ),
+    "C02": dict(
+        text="Lean theorems: normPaths (the model of sorted(set(paths)), compared with Python on generated lists) is strictly "
+             "increasing, idempotent and depends on its argument only through its set of members; define_step, "
+             "declare_static_files, amend_step and register_nglob give the same state, answer and error for path lists with "
+             "the same members; whether two declarations of one path exclude each other does not depend on which is in the "
+             "graph already (building on C08), two creators declaring one static file reject each other in both orders, and "
+             "the claim check reads the graph only through the attached claim. Schedule independence of whole builds is "
+             "decided by the oracle: projgen projects (also invalid and failing ones), racing projects (2-3 concurrent plans "
+             "with cross-plan references, two static trees in one request, optional cross-plan conflicts) and amend-timing "
+             "projects (post-hoc amend next to unrelated steps, 1 and 3-5 jobs), each built from scratch under 4-6 "
+             "configurations plus one resumed-unchanged build: return-code class, canonical graph with digests, all files, "
+             "rejected-request texts.",
+        note=BASE_NOTE + "schedule_confluence and decl_commute for whole requests are not proved (the two orders differ in row "
+             "order; the equality is one of canonical dumps). Resource limits are varied upwards only; step durations are "
+             "represented by the completion order chosen by the schedule. The cosmetic wording differences F16-F19 are "
+             "listed under C08; the racing projects avoid them.",
+        technique="Lean 4 proof of the normalisation and of single-path conflict symmetry + kernel correspondence + "
+                  "multi-schedule differential oracle on simulated builds + raw-versus-normalised request oracle",
+        design="9/C02",
+    ),
+    "C04": dict(
+        text="Lean theorems: the guard of _run_hash_job applies a rehash result iff it differs from the record or the cause is "
+             "CONFIRMED (so an unchanged rescan touches nothing); update_file_hashes({}) is the identity; rescan_env_vars and "
+             "reset_interrupted_steps are identities on a quiescent database; reconcile_targets changes nothing but "
+             "_check_after and _update_meta_ready nothing but _ready/_check_ready; composed, the kernel requests of a restart "
+             "differ from the identity only in _check_after (noop_restart_identity); with no attached step PENDING "
+             "pop_next_job keeps every row's state and attachment and answers 'nothing' (noop_pop_none). Whole builds are "
+             "decided by the oracle: after every successful build of generated histories (C01 generator, plan trees with "
+             "env overrides and a constrained glob) the build is repeated unchanged as a restart with another job count or "
+             "as a watch rebuild (zero commands, identical graph text, identical bytes/mtime/inode), and after source-only "
+             "edits every executed step must be justified by an edited file or by another executed step.",
+        note=BASE_NOTE + "noop_rebuild and cone are not proved for whole builds; that FILL_SAFE_UPDATE / UPDATE_CHECK_AFTER "
+             "reproduce the stored values on a quiescent database follows from the refresh theorems of C10 under the flag "
+             "disciplines. The simulation gives every written file a fresh mtime, so 'rewrites no output' is observed as "
+             "unchanged (mtime_ns, inode) and bytes.",
+        technique="Lean 4 proof of the startup identities and of the hash-job guard + kernel correspondence + recorded-call "
+                  "correspondence of the real _run_hash_job + repeat-the-build and exact-cone oracle on simulated builds",
+        design="9/C04",
+    ),
 }
 
 PENDING_REASON = "machinery for this property is not built yet in this round (see DESIGN.md section 12 for the order)"
